@@ -478,7 +478,11 @@ class Verdict:
             self.violations.append((p, note, found_input))
 
     def known(self, text):
-        if text not in self.known_hits:
+        # one line per listed finding (class), whatever the number of generated inputs that fall into it
+        m = re.search(r"class=(\w+)", text)
+        key = m.group(1) if m else text
+        if key not in [k for k, _ in getattr(self, "_known_keys", [])]:
+            self._known_keys = getattr(self, "_known_keys", []) + [(key, text)]
             self.known_hits.append(text)
 
     def finish(self, level="proof"):
